@@ -238,6 +238,13 @@ def run(ctx):
     r2b = rep.rule('C05-R2b', 'the handled addresses are the configured ones: the self-IP list reaches the stack as parsed from --self-ip-file / --self-ip-list (C02-R6)', floor=3)
     for rid_, inst in borrow(ctx, 'C02', lambda r_, k_: r_ == 'C02-R6' and (k_.startswith('parser:') or k_ in ('main:self_ip_list', 'main:one-context', 'main:context-used'))):
         rep.check(r2b, inst['ok'], '%s:%s' % (rid_, inst['key']), inst['detail'], inst['loc'])
+    # a request of the statement reaches ARP / ICMP only if layer 2 admits its destination MAC: the admission test and the set
+    # it consults (configured MAC, broadcast, all-nodes, derived multicasts) are C02-R1 / R1b, on the same facts
+    borrowed_rule(ctx, 'C05', 'RG', 'layer-2 admission: the frame is let through exactly for the configured MAC, broadcast, all-nodes and the multicast MACs derived from the handled addresses, computed from this frame\'s configuration (C02-R1, R1b)',
+                  'C02', lambda r_, k_: r_ in ('C02-R1', 'C02-R1b'), floor=8)
     r3 = rep.rule('C05-R3', 'the converse: an ARP request / echo request / neighbour solicitation is left unanswered only for the reasons of the statement (other operation/type/code, target not handled, truncated message) - decided by enumerating the path facts of every None return', floor=4)
     from rules import silence
     silence.run_for(ctx, r3, ['layer_2::arp::repl', 'layer_4::icmpv4::repl', 'layer_4::icmpv6::repl', 'layer_4::icmpv6::nd_ns_repl'])
+    hand_over_sound(ctx, 'C05')
+
+
